@@ -505,7 +505,7 @@ func checkC08Calls(c *Check, L *Loaded) {
 // R8.6: deep-copy functions.
 func checkC08DeepCopies(c *Check, L *Loaded) {
 	r := c.Rule("R8.6", "deep-copy functions give the copy its own blocks: a fresh buffer filled with the bytes, element-wise deep copies for non-primitive elements and fields, inline bytes copied only for primitive contents", 5)
-	P, err := LoadC(repoDir(), false)
+	P, err := LoadC(repoDirC(), false)
 	if err != nil {
 		r.Und("lib/runtime", token.NoPos, err.Error())
 		return
